@@ -858,6 +858,9 @@ func (e *Executor) Execute(ctx context.Context, m File) (err error) {
 				return err
 			}
 		}
+		// The unapplied tail of the file may have changed
+		// since the last attempt, and so its statement count.
+		r.Total = len(stmts)
 	}
 	e.log.Log(LogFile{m, r.Version, r.Description, r.Applied})
 	if err := e.fileChecks(ctx, m, r); err != nil {
